@@ -28,6 +28,7 @@ CONSTANTS Worlds,      \* set of [id, pkgs, gopkgs, cfgs, inits, envs, ancs] rec
 
 VARIABLES world,       \* the world record chosen for this behaviour
           start,       \* kind of content at the target path before the first operation
+          decoy,       \* what is at the place lexical cleaning of --config would name: "none" (same place) | "absent" | "valid"
           anc,         \* a configuration file some ancestor directory of the working directory already holds
           env,         \* class of MOCKERY_* variables set while `init` runs (load and run use a clean environment)
           cfg,         \* class of the --config argument (see CfgClasses)
@@ -38,12 +39,18 @@ VARIABLES world,       \* the world record chosen for this behaviour
           last,        \* the last completed operation with its outcome and the contract's verdict
           hist         \* all completed operations (observation; hidden by VIEW)
 
-vars == <<world, start, anc, env, cfg, content, mocks, loaded, pc, pending, last, hist>>
-view == <<world, start, anc, env, cfg, content, mocks, loaded, pc, pending>>
+vars == <<world, start, decoy, anc, env, cfg, content, mocks, loaded, pc, pending, last, hist>>
+view == <<world, start, decoy, anc, env, cfg, content, mocks, loaded, pc, pending>>
 
 \* --config classes.  "default": flag absent, init.go:47 falls back to ".mockery.yml" in the working
 \* directory and a later plain run finds it by search.  All others name the file explicitly.
-CfgClasses == {"default", "rel", "reldot", "abs", "subdir", "missing", "yamlext", "eqform", "after", "cwdsub"}
+\* "linkup" / "linkupabs": `lnk/../x.yml` where lnk is a symbolic link to a directory elsewhere -- the kernel resolves
+\* this to the parent of the link's DESTINATION, lexical cleaning to the directory holding the link; "linkdir":
+\* through the linked directory without `..` (control); "dslash": `cfgs//./conf.yml`.  The target path is what the
+\* kernel resolves: init.go hands the string to open(2) as it is.
+CfgClasses == {"default", "rel", "reldot", "abs", "subdir", "missing", "yamlext", "eqform", "after", "cwdsub",
+               "linkup", "linkupabs", "linkdir", "dslash"}
+TwoCandidates(c) == c \in {"linkup", "linkupabs"}   \* lexical cleaning would name another place (the decoy)
 ParentOK(c) == c # "missing"
 
 \* kinds of content at the target path
@@ -57,6 +64,7 @@ Init ==
   /\ cfg \in world.cfgs
   /\ start \in world.inits
   /\ cfg = "missing" => start = "absent"      \* nothing can be below a directory that does not exist
+  /\ decoy \in (IF TwoCandidates(cfg) THEN {"absent", "valid"} ELSE {"none"})
   /\ anc \in world.ancs
   /\ anc # "none" => start = "absent" /\ cfg \in {"default", "cwdsub"}   \* only the search for a config looks upwards
   /\ env \in world.envs
@@ -78,10 +86,10 @@ InitOpen(p) ==
   /\ IF content.k # "absent" \/ ~ParentOK(cfg)
      THEN /\ Done([op |-> "init", pkg |-> p, ok |-> FALSE, after |-> "same",
                    allow |-> InitAllowed(Presence(content), ParentOK(cfg))])
-          /\ UNCHANGED <<world, start, anc, env, cfg, content, mocks, loaded, pc, pending>>
+          /\ UNCHANGED <<world, start, decoy, anc, env, cfg, content, mocks, loaded, pc, pending>>
      ELSE /\ content' = C("created", None)        \* an empty file exists from here on
           /\ pc' = "opened" /\ pending' = p
-          /\ UNCHANGED <<world, start, anc, env, cfg, mocks, loaded, last, hist>>
+          /\ UNCHANGED <<world, start, decoy, anc, env, cfg, mocks, loaded, last, hist>>
 
 \* init.go:54-71,81-88.  rootConf = defaults of NewDefaultKoanf + packages {p: {config: {all: true}}}.
 \* NewDefaultKoanf (config.go:89-110) holds the built-in defaults only: the MOCKERY_* environment is a layer of
@@ -93,7 +101,7 @@ InitEncode ==
   /\ pc' = "idle" /\ pending' = None
   /\ Done([op |-> "init", pkg |-> pending, ok |-> TRUE, after |-> "created",
            allow |-> InitAllowed("no", ParentOK(cfg))])
-  /\ UNCHANGED <<world, start, anc, env, cfg, mocks>>
+  /\ UNCHANGED <<world, start, decoy, anc, env, cfg, mocks>>
 
 (* ------------------------------------------------------------ showconfig *)
 \* Known deviations (findings C18-merge-key-package, C18-block-literal-package): yaml.v3 writes the key `<<`
@@ -112,7 +120,7 @@ Load ==
   /\ LET r == LoadImpl(content) IN
      /\ Done([op |-> "load", pkg |-> By(content), ok |-> r.ok, keys |-> r.keys, expect |-> LoadExpect(By(content))])
      /\ loaded' = IF TrackLoad /\ r.ok THEN TRUE ELSE loaded
-  /\ UNCHANGED <<world, start, anc, env, cfg, content, mocks, pc, pending>>
+  /\ UNCHANGED <<world, start, decoy, anc, env, cfg, content, mocks, pc, pending>>
 
 (* ------------------------------------------------------------- plain run *)
 IsGoPkg(p) == p \in world.gopkgs
@@ -133,7 +141,7 @@ Run ==
      /\ Done([op |-> "run", pkg |-> By(content), ok |-> r.ok, mocked |-> r.mocked,
               expect |-> RunExpect(By(content), IsGoPkg(content.p), Ifc(content.p), content.p \in mocks)])
      /\ mocks' = IF r.ok THEN mocks \cup {content.p} ELSE mocks
-  /\ UNCHANGED <<world, start, anc, env, cfg, content, loaded, pc, pending>>
+  /\ UNCHANGED <<world, start, decoy, anc, env, cfg, content, loaded, pc, pending>>
 
 Next ==
   \/ \E p \in world.pkgs : InitOpen(p)
@@ -178,7 +186,7 @@ NeverRunMocks == ~(last.op = "run" /\ last.ok)
 -----------------------------------------------------------------------------
 (* Export: every generated transition that completes an operation is printed once, with the world, the
    --config class, the initial content and the history that leads to it. *)
-Case == [world |-> world.id, cfg |-> cfg, start |-> start, env |-> env, anc |-> anc, ops |-> hist]
+Case == [world |-> world.id, cfg |-> cfg, start |-> start, env |-> env, anc |-> anc, decoy |-> decoy, ops |-> hist]
 Emit == IF pc = "idle" /\ Len(hist) > 0 /\ TLCGet("config").mode = "bfs"
         THEN PrintT(<<"CASE", ToJson(Case)>>) ELSE TRUE
 =============================================================================
